@@ -43,6 +43,8 @@ def plan(tier, seed):
         ntrans += tr
         for ops in ms:
             cases.append({"ops": fsm.ops_json(ops), "labels": labels})
+            if len(ops) <= 5:
+                cases.append({"ops": fsm.ops_json(ops), "labels": labels, "ints": True})  # falsy / integer symbols a->0, b->1
     for k in range(len(INTERLEAVE_POOLS)):
         cases.append({"mode": "interleave", "pool": k, "ops": []})
     return {
@@ -173,6 +175,11 @@ def run_case(case):
     ops = fsm.ops_from_json(case["ops"])
     alphabet = [a for a in case["labels"] if a != EPS]
     inp0 = {"ops": case["ops"]}
+    if case.get("ints"):
+        im = {"a": 0, "b": 1}
+        ops = tuple(o if o[0] != "A" else ("A", o[1], im.get(o[2], o[2]), o[3]) for o in ops)
+        alphabet = [im.get(a, a) for a in alphabet]
+        inp0["symbols"] = "a,b -> 0,1"
     fails = []
     evals = 0
     n = len(ops)
